@@ -104,7 +104,8 @@ prop("C02", NEC + "Clauses: token-range to text-range conversions unwrap first()
      "range is out of bounds or off a character boundary, and replace_range panics); the nesting depth of the tree, which every "
      "recursive walk of the front end and of the handlers needs stack for, is bounded where the tree is built (RECURSION-BOUND; open known findings); "
      "the frame decoder slices the body only behind the guard on the very bound it slices with and takes no unguarded unsigned difference (CODEC: "
-     "a panic in the reader task ends the process).",
+     "a panic in the reader task ends the process); the span a content change replaces comes from `range` through the conversion functions, never from "
+     "`rangeLength` (POS-CONV rangelen).",
      [{"rule": "EMPTY-RANGE-GUARD", "filter": nottag("diagstart", "diagtokens"), "floor": 2}, {"rule": "LOOKUP-NOPANIC", "floor": 14},
       {"rule": "ENTRY-GUARD", "filter": nottag("typeentry"), "floor": 6}, {"rule": "WHO-MAY", "filter": tag("exit"), "floor": 1},
       {"rule": "TOKEN-RANGE-SOURCE", "floor": 11}, {"rule": "INDEX-ELEM", "floor": 30},
@@ -116,7 +117,10 @@ prop("C02", NEC + "Clauses: token-range to text-range conversions unwrap first()
       # "for every edit history the server process stays alive": a change that is not accepted at once is waited for, not turned into an error
       {"rule": "SEND-AWAIT", "filter": nottag("order"), "floor": 8},
       # diagnostics are computed for every document state: their ranges index the token vector
-      {"rule": "ERR-FRAME", "filter": tag("foreign"), "floor": 1}])
+      {"rule": "ERR-FRAME", "filter": tag("foreign"), "floor": 1},
+      # a replaced span that is not computed by the conversion functions (rangeLength: UTF-16 units taken for bytes) is off a character
+      # boundary as soon as the text is not ASCII: replace_range panics
+      {"rule": "POS-CONV", "filter": tag("rangelen"), "floor": 1}])
 
 prop("C03", NEC + "Clauses: each of the 27 build/semantic message kinds has an emitting site under table::* and its own "
      "text (VARIANTS); every error is attached in the reference frame of the node that owns it and is shifted exactly "
@@ -281,7 +285,7 @@ prop("C14", NEC + "Clauses: the call statement is located with node, origin and 
      [{"rule": "FRAME", "filter": files("signature_help.rs"), "floor": 8},
       {"rule": "TRAVERSE", "filter": tag("calls"), "floor": 18}, {"rule": "SCOPE-ORDER", "filter": both(feat("hover", "signature_help"), nottag("typescope", "semantic")), "floor": 10},
       {"rule": "DISPLAY-FIELDS", "floor": 6}, {"rule": "IDENT-RANGE", "filter": feat("hover", "signature_help"), "floor": 4}, {"rule": "POS-CONV", "filter": feat("hover", "signature_help"), "floor": 4},
-      {"rule": "CURSOR-CMP", "filter": feat("hover", "signature_help"), "floor": 1}, {"rule": "REQ-PURE", "floor": 1}, {"rule": "INDEX-DOMAIN", "floor": 6}, {"rule": "DOC-FLOW", "floor": 1},
+      {"rule": "CURSOR-CMP", "filter": feat("hover", "signature_help"), "floor": 1}, {"rule": "REQ-PURE", "floor": 2}, {"rule": "INDEX-DOMAIN", "floor": 6}, {"rule": "DOC-FLOW", "floor": 1},
       {"rule": "POSITION-TOKEN", "filter": both(tag("nest"), feat("hover", "signature_help")), "floor": 0},
       {"rule": "FRAME", "filter": files("parser.rs", "utility.rs"), "floor": 3},
       {"rule": "TEXT-SYNC", "filter": tag("utf16"), "floor": 1}])
